@@ -57,6 +57,8 @@ struct Writer {
     app: PathBuf,
     cache: kismet_cache::plain::Cache,
     n: u64,
+    /// stage each source file in `cache.temp_dir()` (the documented workflow) instead of an application directory
+    stage_in_temp_dir: bool,
 }
 
 impl Writer {
@@ -67,15 +69,33 @@ impl Writer {
             std::fs::create_dir_all(&dir).unwrap();
             std::fs::create_dir_all(&app).unwrap();
         });
-        Writer { cache: kismet_cache::plain::Cache::new(dir.clone(), capacity), dir, app, n: 0 }
+        Writer { cache: kismet_cache::plain::Cache::new(dir.clone(), capacity), dir, app, n: 0, stage_in_temp_dir: false }
     }
     /// One write; returns (result, whether maintenance ran, whether it ran before publication).
     fn write(&mut self, name: &str, set: bool) -> (Result<std::io::Result<()>, String>, bool, bool, Vec<Ev>) {
         self.n += 1;
-        let src = self.app.join(format!("src{}", self.n));
-        shim::passthrough(|| std::fs::write(&src, format!("v{}", self.n)).unwrap());
+        let n = self.n;
+        let stage = self.stage_in_temp_dir;
+        let app_src = self.app.join(format!("src{}", self.n));
+        if !stage {
+            shim::passthrough(|| std::fs::write(&app_src, format!("v{}", n)).unwrap());
+        }
         let cache = &self.cache;
-        let (r, trace) = run::as_participant(0, self.n as u32, || if set { cache.set(name, &src) } else { cache.put(name, &src) });
+        let mut src = app_src.clone();
+        let src_ref = &mut src;
+        let (r, trace) = run::as_participant(0, self.n as u32, || {
+            if stage {
+                // temp_dir() is not a write: it must not use up the maintenance window
+                let t = cache.temp_dir()?.into_owned();
+                *src_ref = t.join(format!("staged{}", n));
+                std::fs::write(&*src_ref, format!("v{}", n))?;
+            }
+            if set {
+                cache.set(name, &*src_ref)
+            } else {
+                cache.put(name, &*src_ref)
+            }
+        });
         shim::passthrough(|| {
             let _ = std::fs::remove_file(&src);
         });
@@ -106,6 +126,8 @@ pub enum Case {
     Trigger { k: usize, start: u64, script: Vec<u64> },
     /// capacity, write sequence (op code 0..6: set/put x fresh/oldest/newest), draw default
     Growth { k: usize, seq: Vec<u8>, draw: u64 },
+    /// as Growth, with every source file staged in cache.temp_dir(); `first`: scripted draws before the default
+    Staged { k: usize, seq: Vec<u8>, draw: u64, first: Vec<u64> },
     /// capacity, draw, number of writes
     Huge { k: usize, draw: u64, writes: u32 },
     /// worst-case family at capacity k: fresh keys only, alternating (mode 0) or all put (mode 1)
@@ -117,6 +139,7 @@ impl Case {
         match self {
             Case::Trigger { k, start, script } => json!({"kind": "trigger", "k": k.to_string(), "start": start.to_string(), "script": script.iter().map(|d| d.to_string()).collect::<Vec<_>>()}),
             Case::Growth { k, seq, draw } => json!({"kind": "growth", "k": k.to_string(), "seq": seq, "draw": draw.to_string()}),
+            Case::Staged { k, seq, draw, first } => json!({"kind": "staged", "k": k.to_string(), "seq": seq, "draw": draw.to_string(), "first": first.iter().map(|d| d.to_string()).collect::<Vec<_>>()}),
             Case::Huge { k, draw, writes } => json!({"kind": "huge", "k": k.to_string(), "draw": draw.to_string(), "writes": writes}),
             Case::Family { k, mode, draw } => json!({"kind": "family", "k": k.to_string(), "mode": mode, "draw": draw.to_string()}),
         }
@@ -127,6 +150,12 @@ impl Case {
         match v["kind"].as_str().unwrap() {
             "trigger" => Case::Trigger { k, start: num(&v["start"]), script: v["script"].as_array().unwrap().iter().map(num).collect() },
             "growth" => Case::Growth { k, seq: v["seq"].as_array().unwrap().iter().map(|x| x.as_u64().unwrap() as u8).collect(), draw: num(&v["draw"]) },
+            "staged" => Case::Staged {
+                k,
+                seq: v["seq"].as_array().unwrap().iter().map(|x| x.as_u64().unwrap() as u8).collect(),
+                draw: num(&v["draw"]),
+                first: v["first"].as_array().map(|a| a.iter().map(num).collect()).unwrap_or_default(),
+            },
             "huge" => Case::Huge { k, draw: num(&v["draw"]), writes: v["writes"].as_u64().unwrap() as u32 },
             _ => Case::Family { k, mode: v["mode"].as_u64().unwrap() as u8, draw: num(&v["draw"]) },
         }
@@ -169,10 +198,15 @@ pub fn run_case(case: &Case, rep: &mut Report) -> Vec<(String, String)> {
                 None => bad.push(("window-exceeded".into(), format!("capacity {}: no maintenance within {} writes (window {})", k, p + 2, p))),
             }
         }
-        Case::Growth { k, seq, draw } => {
+        Case::Growth { k, seq, draw } | Case::Staged { k, seq, draw, .. } => {
             let p = period(*k as u128) as usize;
             let mut w = Writer::new(&sc, *k);
-            verif_hooks::script_trigger_draws(&[], Some(*draw));
+            w.stage_in_temp_dir = matches!(case, Case::Staged { .. });
+            let first: Vec<u64> = match case {
+                Case::Staged { first, .. } => first.clone(),
+                _ => vec![],
+            };
+            verif_hooks::script_trigger_draws(&first, Some(*draw));
             verif_hooks::set_trigger_counter(0);
             let mut fresh = 0;
             let mut names: Vec<String> = Vec::new();
@@ -216,6 +250,9 @@ pub fn run_case(case: &Case, rep: &mut Report) -> Vec<(String, String)> {
                 if n > k + p {
                     bad.push(("too-many-files".into(), format!("capacity {}: {} files after write {} (bound k + max(1, k/3) = {})", k, n, i, k + p)));
                 }
+            }
+            if bad.iter().any(|b| b.0 == "error") {
+                bad.retain(|b| b.0 == "error");
             }
         }
         Case::Family { k, mode, draw } => {
@@ -310,7 +347,8 @@ pub fn run(tier: Tier, shard: Shard, rep: &mut Report) {
          rename/link; (2) for capacities 0..={} every write sequence of length <= {} over {{set, put}} x {{fresh, oldest, newest key}} \
          with the gap-maximising and the minimal draw, and for capacities up to {} the fresh-key worst-case families of length \
          2(k+p)+2: after every write the file count is <= k + max(1, k/3) and no window of max(1, k/3) writes lacks maintenance; (3) \
-         capacities 2^63, 3*2^62, usize::MAX-2..=usize::MAX: small draws fire at the first write, 2^64-1 with 1000 writes never \
+         the fresh-key families again with every source file staged in cache.temp_dir() (the documented workflow: temp_dir() is \
+         not a write and must not use up the window); capacities 2^63, 3*2^62, usize::MAX-2..=usize::MAX: small draws fire at the first write, 2^64-1 with 1000 writes never \
          panics. Every case is distinct.",
         kmax, smallk, seqlen, kmax
     );
@@ -359,6 +397,22 @@ pub fn run(tier: Tier, shard: Shard, rep: &mut Report) {
                 if tier == Tier::Thorough && len <= 5 {
                     let s = scale(k as u128) as u64;
                     take(Case::Growth { k, seq: seq.clone(), draw: s.saturating_add(1) }, rep);
+                }
+            }
+        }
+    }
+    for k in 0..=kmax.min(30) {
+        let p = period(k as u128) as usize;
+        let sc = scale(k as u128) as u64;
+        // every phase of the countdown relative to the (temp_dir, write) pairs: the first draw fires at
+        // once or not, then a constant draw worth 1, 2, 3 or "period" events
+        for draw in [u64::MAX, 1u64, sc.saturating_add(1), sc.saturating_mul(2), sc.saturating_mul(2).saturating_add(1), sc.saturating_mul(3)] {
+            for first in [vec![], vec![1u64], vec![sc.saturating_add(1)]] {
+                for pattern in 0..2u8 {
+                    // fresh keys only: all put, alternating set/put
+                    let len = 3 * p + 3;
+                    let seq: Vec<u8> = (0..len).map(|i| match pattern { 0 => 1, _ => (i % 2) as u8 }).collect();
+                    take(Case::Staged { k, seq, draw, first: first.clone() }, rep);
                 }
             }
         }
